@@ -1,6 +1,10 @@
 //! This module contains the [`HpoGroup`] struct and the corresponding [`HpoTermId`] iterators [`Iter`] and [`Combined`]
 use crate::annotations::AnnotationId;
+#[cfg(not(feature = "verif"))]
 use std::collections::HashSet;
+#[cfg(feature = "verif")]
+#[allow(unused_imports)]
+use crate::verif::{HashSet, MapNew};
 use std::ops::{Add, BitAnd, BitOr};
 
 use smallvec::SmallVec;
